@@ -115,11 +115,12 @@ def conclude(ctx, *, level, violations, evaluations, distinct_nontrivial, rule, 
     ev = dict(property_id=ctx.prop, tier=ctx.tier, seed=int(ctx.seed), level=level,
               coverage=cov, assumptions=assumptions, wall_s=round(time.time() - ctx.t0, 2),
               violations=len(reported))
-    os.makedirs(EVIDENCE, exist_ok=True)
-    tmp = os.path.join(EVIDENCE, '.%s.json.tmp' % ctx.prop)
-    with open(tmp, 'w') as f:
-        json.dump(ev, f, indent=1, sort_keys=True, default=str)
-    os.replace(tmp, os.path.join(EVIDENCE, '%s.json' % ctx.prop))
+    if not getattr(ctx, 'no_evidence', False):     # a --replay run is not a coverage run
+        os.makedirs(EVIDENCE, exist_ok=True)
+        tmp = os.path.join(EVIDENCE, '.%s.json.tmp' % ctx.prop)
+        with open(tmp, 'w') as f:
+            json.dump(ev, f, indent=1, sort_keys=True, default=str)
+        os.replace(tmp, os.path.join(EVIDENCE, '%s.json' % ctx.prop))
     ctx.log('done: %d evaluations, %d nontrivial, %d traces, %d violations (%d known), %.1fs' % (
         evaluations, distinct_nontrivial, traces_validated, len(reported),
         sum(n for _, n in known_hit.values()), time.time() - ctx.t0))
